@@ -80,22 +80,23 @@ def install_oracle_deps(E, g, ev):
     N, K, d = ev.N, ev.K, ev.d
     V = lambda nm: E.node(g.varid[nm])
     if 'e0_tc' in g.varid:
-        E.fdeps['e0_tc'] = [(V('e0_tg%d' % i), E.out('e0.Ts.%d' % i)) for i in range(N) if 'e0_tg%d' % i in g.varid]
+        E.fdeps['e0_tc'] = [(V('e0_tg%d' % i), E.out('E@Ts.%d' % i)) for i in range(N) if 'e0_tg%d' % i in g.varid and 'E@Ts.%d' % i in g.outs]
     if 'e0_wc' in g.varid:
-        E.fdeps['e0_wc'] = [(V('e0_wg%d_%d' % (i, dd)), E.out('e0.W.%d.%d' % (i, dd))) for i in range(N + 1) for dd in range(d) if 'e0_wg%d_%d' % (i, dd) in g.varid]
+        E.fdeps['e0_wc'] = [(V('e0_wg%d_%d' % (i, dd)), E.out('E@W.%d.%d' % (i, dd))) for i in range(N + 1) for dd in range(d) if 'e0_wg%d_%d' % (i, dd) in g.varid and 'E@W.%d.%d' % (i, dd) in g.outs]
     for i in range(N):
         for k in range(K + 1):
             n = 'e0_s%d_k%d' % (i, k)
-            if n + '_c' not in g.varid:
+            rn = 'E@s%d_k%d' % (i, k)
+            if n + '_c' not in g.varid or rn + '.tg' not in g.outs:
                 continue
             deps = []
             for a in X.ARGN:
                 for dd in range(d):
                     gn = '%s_g%s%d' % (n, a, dd)
                     if gn in g.varid:
-                        deps.append((V(gn), E.out('%s.%s.%d' % (n, a, dd))))
+                        deps.append((V(gn), E.out('%s.%s.%d' % (rn, a, dd))))
             if n + '_gt' in g.varid:
-                deps.append((V(n + '_gt'), E.out(n + '.tg')))
+                deps.append((V(n + '_gt'), E.out(rn + '.tg')))
             E.fdeps[n + '_c'] = deps
 
 
